@@ -52,9 +52,10 @@ def crc(args) -> int:
 class Injected(Exception):
     """The exception object a failing generated node raises (pre-allocated per node, identity is checked)."""
 
-    def __init__(self, fid):
-        super().__init__(f"injected failure in {fid}")
+    def __init__(self, fid, at=None):
+        super().__init__(f"injected failure in {fid}" + (f" at {at!r}" if at is not None else ""))
         self.fid = fid
+        self.at = at  # argument tuple, when the failure is allocated per invocation (map items)
 
 
 class Ctx:
@@ -161,6 +162,8 @@ def make_func(ctx: Ctx, spec: dict, flavour: str):
         if hook is not None:
             hook(a)
         if _should_fail(fail, a):
+            if spec.get("fail_per_args"):
+                raise ctx.injected.setdefault((fid, a), Injected(fid, a))
             raise injected
 
     if is_async:
